@@ -245,10 +245,14 @@ func c09BGV(ctx *core.RunCtx, scaleInvariant bool) *c09Scheme {
 			callNew: func(e any, a *rlwe.Ciphertext, b any, k int) (*rlwe.Ciphertext, error) { return ev(e).MulNew(a, b) }},
 		{name: "MulRelin", op1: scal, deg: degRelin, call: func(e any, a *rlwe.Ciphertext, b any, k int, o *rlwe.Ciphertext) error {
 			return ev(e).MulRelin(a, b, o)
-		}, callNew: func(e any, a *rlwe.Ciphertext, b any, k int) (*rlwe.Ciphertext, error) { return ev(e).MulRelinNew(a, b) }},
+		}, callNew: func(e any, a *rlwe.Ciphertext, b any, k int) (*rlwe.Ciphertext, error) {
+			return ev(e).MulRelinNew(a, b)
+		}},
 		{name: "MulScaleInvariant", op1: []int{vCt, vPt, vVec, vU64}, deg: degMul, call: func(e any, a *rlwe.Ciphertext, b any, k int, o *rlwe.Ciphertext) error {
 			return ev(e).MulScaleInvariant(a, b, o)
-		}, callNew: func(e any, a *rlwe.Ciphertext, b any, k int) (*rlwe.Ciphertext, error) { return ev(e).MulScaleInvariantNew(a, b) }},
+		}, callNew: func(e any, a *rlwe.Ciphertext, b any, k int) (*rlwe.Ciphertext, error) {
+			return ev(e).MulScaleInvariantNew(a, b)
+		}},
 		{name: "MulRelinScaleInvariant", op1: []int{vCt, vPt, vVec}, deg: degRelin, call: func(e any, a *rlwe.Ciphertext, b any, k int, o *rlwe.Ciphertext) error {
 			return ev(e).MulRelinScaleInvariant(a, b, o)
 		}, callNew: func(e any, a *rlwe.Ciphertext, b any, k int) (*rlwe.Ciphertext, error) {
@@ -263,10 +267,14 @@ func c09BGV(ctx *core.RunCtx, scaleInvariant bool) *c09Scheme {
 		{name: "Rescale", op1: []int{vNone}, deg: degSame, call: func(e any, a *rlwe.Ciphertext, b any, k int, o *rlwe.Ciphertext) error { return ev(e).Rescale(a, o) }},
 		{name: "Relinearize", op1: []int{vNone}, deg: degOne, call: func(e any, a *rlwe.Ciphertext, b any, k int, o *rlwe.Ciphertext) error {
 			return ev(e).Relinearize(a, o)
-		}, callNew: func(e any, a *rlwe.Ciphertext, b any, k int) (*rlwe.Ciphertext, error) { return ev(e).RelinearizeNew(a) }},
+		}, callNew: func(e any, a *rlwe.Ciphertext, b any, k int) (*rlwe.Ciphertext, error) {
+			return ev(e).RelinearizeNew(a)
+		}},
 		{name: "RotateColumns", op1: []int{vNone}, ks: c09Rotations, deg: degOne, call: func(e any, a *rlwe.Ciphertext, b any, k int, o *rlwe.Ciphertext) error {
 			return ev(e).RotateColumns(a, k, o)
-		}, callNew: func(e any, a *rlwe.Ciphertext, b any, k int) (*rlwe.Ciphertext, error) { return ev(e).RotateColumnsNew(a, k) }},
+		}, callNew: func(e any, a *rlwe.Ciphertext, b any, k int) (*rlwe.Ciphertext, error) {
+			return ev(e).RotateColumnsNew(a, k)
+		}},
 		{name: "RotateRows", op1: []int{vNone}, deg: degOne, call: func(e any, a *rlwe.Ciphertext, b any, k int, o *rlwe.Ciphertext) error { return ev(e).RotateRows(a, o) },
 			callNew: func(e any, a *rlwe.Ciphertext, b any, k int) (*rlwe.Ciphertext, error) { return ev(e).RotateRowsNew(a) }},
 		{name: "InnerSum", op1: []int{vNone}, ks: []int{1, 2}, needDeg1: true, deg: degOne, call: func(e any, a *rlwe.Ciphertext, b any, k int, o *rlwe.Ciphertext) error {
@@ -681,7 +689,9 @@ func c09CKKS(ctx *core.RunCtx) *c09Scheme {
 			callNew: func(e any, a *rlwe.Ciphertext, b any, k int) (*rlwe.Ciphertext, error) { return ev(e).MulNew(a, b) }},
 		{name: "MulRelin", op1: scal, deg: degRelin, call: func(e any, a *rlwe.Ciphertext, b any, k int, o *rlwe.Ciphertext) error {
 			return ev(e).MulRelin(a, b, o)
-		}, callNew: func(e any, a *rlwe.Ciphertext, b any, k int) (*rlwe.Ciphertext, error) { return ev(e).MulRelinNew(a, b) }},
+		}, callNew: func(e any, a *rlwe.Ciphertext, b any, k int) (*rlwe.Ciphertext, error) {
+			return ev(e).MulRelinNew(a, b)
+		}},
 		{name: "MulThenAdd", op1: []int{vCt, vPt, vVecC, vC128, vF64, vInt}, accum: true, deg: degMul, call: func(e any, a *rlwe.Ciphertext, b any, k int, o *rlwe.Ciphertext) error {
 			return ev(e).MulThenAdd(a, b, o)
 		}},
@@ -691,14 +701,18 @@ func c09CKKS(ctx *core.RunCtx) *c09Scheme {
 		{name: "Rescale", op1: []int{vNone}, deg: degSame, call: func(e any, a *rlwe.Ciphertext, b any, k int, o *rlwe.Ciphertext) error { return ev(e).Rescale(a, o) }},
 		{name: "Relinearize", op1: []int{vNone}, deg: degOne, call: func(e any, a *rlwe.Ciphertext, b any, k int, o *rlwe.Ciphertext) error {
 			return ev(e).Relinearize(a, o)
-		}, callNew: func(e any, a *rlwe.Ciphertext, b any, k int) (*rlwe.Ciphertext, error) { return ev(e).RelinearizeNew(a) }},
+		}, callNew: func(e any, a *rlwe.Ciphertext, b any, k int) (*rlwe.Ciphertext, error) {
+			return ev(e).RelinearizeNew(a)
+		}},
 		{name: "Rotate", op1: []int{vNone}, ks: c09Rotations, deg: degOne, call: func(e any, a *rlwe.Ciphertext, b any, k int, o *rlwe.Ciphertext) error { return ev(e).Rotate(a, k, o) },
 			callNew: func(e any, a *rlwe.Ciphertext, b any, k int) (*rlwe.Ciphertext, error) { return ev(e).RotateNew(a, k) }},
 		{name: "Conjugate", op1: []int{vNone}, deg: degOne, call: func(e any, a *rlwe.Ciphertext, b any, k int, o *rlwe.Ciphertext) error { return ev(e).Conjugate(a, o) },
 			callNew: func(e any, a *rlwe.Ciphertext, b any, k int) (*rlwe.Ciphertext, error) { return ev(e).ConjugateNew(a) }},
 		{name: "ScaleUp", op1: []int{vNone}, ks: []int{2, 3, 8}, deg: degSame, call: func(e any, a *rlwe.Ciphertext, b any, k int, o *rlwe.Ciphertext) error {
 			return ev(e).ScaleUp(a, rlwe.NewScale(k), o)
-		}, callNew: func(e any, a *rlwe.Ciphertext, b any, k int) (*rlwe.Ciphertext, error) { return ev(e).ScaleUpNew(a, rlwe.NewScale(k)) }},
+		}, callNew: func(e any, a *rlwe.Ciphertext, b any, k int) (*rlwe.Ciphertext, error) {
+			return ev(e).ScaleUpNew(a, rlwe.NewScale(k))
+		}},
 		{name: "SetScale", op1: []int{vNone}, ks: []int{0, 1, 2}, inplace: true, deg: degSame, call: func(e any, a *rlwe.Ciphertext, b any, k int, o *rlwe.Ciphertext) error {
 			// to the default scale, or to 9/8 or 5/4 of the current one (consumes a level)
 			target := cp.DefaultScale()
